@@ -32,7 +32,8 @@ mod listing {
     //!   `v:<name>:<value>:<attrs>`   `typeset [-x] [-r] -- 'name=value'`     attrs ⊆ "xr" or `-`
     //!                                (`pv:` / `pn:` = the name starts with `+`; was listed without `--` until /repo 70b6315)
     //!   `n:<name>:<attrs>`           `typeset [-x] [-r] -- 'name'` (no value; keeps an existing value)
-    //!   `a:<name>:<v1>,<v2>…:<attrs>` `name=('v1' 'v2' …)` then `typeset -x…` (name is an identifier)
+    //!   `a:<name>:<v1>,<v2>…:<attrs>` `name=('v1' 'v2' …)` then `typeset -x…` (name: any run of literal characters;
+    //!                                `aq:` = the quoter quotes the name — the listed line is not an assignment: known finding)
     //!   `l:<name>:<value>`           `alias -- 'name=value'`   (`lg:` = both parts unquoted with `[` … `]` across)
     //!   `t:<COND>:<action>`          `trap -- 'action' COND`
     //!   `e:<name>:<value>`           variable created through the API before the script (name contains `=`)
@@ -238,7 +239,7 @@ mod listing {
                     }
                     out.pre.push((name, dec_str(v)?));
                 }
-                ["a", n, vs, a] => {
+                ["a" | "aq", n, vs, a] => {
                     let name = dec_str(n)?;
                     let vals: Vec<String> = if *vs == "." {
                         vec![]
@@ -247,7 +248,7 @@ mod listing {
                     };
                     sc.push_str(&format!("{}=({})\n", name, vals.join(" ")));
                     if !attrs_opts(a).is_empty() {
-                        sc.push_str(&format!("typeset {}-- {}\n", attrs_opts(a), name));
+                        sc.push_str(&format!("typeset {}-- {}\n", attrs_opts(a), sq(&name)));
                     }
                     push_unique(&mut out.vars, name);
                 }
@@ -581,6 +582,20 @@ mod listing {
         s
     }
 
+    /// names an array assignment `NAME=(…)` can create: the parser (`Assign::try_from`) takes any non-empty run
+    /// of unquoted literal characters before the `=`, not only identifiers.  Half identifiers, a third other
+    /// names the quoter prints bare (`a.b`, `-a`, `+x`, `]`, `é` …), the rest names the quoter quotes (`a*`,
+    /// `a:~`, `a[]`, `{a}` …; marked `aq`: the listed line `'a*'=(…)` is not an assignment — known finding)
+    pub fn array_name(r: &mut Rng) -> String {
+        match r.below(12) {
+            0..=5 => ident(r),
+            6..=9 => r
+                .pick(&["a.b", "a-b", "-a", "-", "--", "+x", "a,b", "a%", "a/b", "@", "a:b", "]", "a]", "\u{e9}", "a^", "{a", "a}", "1a", "0", "a+", "-x", "a~", "a#"])
+                .to_string(),
+            _ => r.pick(&["a*", "a?", "*", "a:~", "a[]", "{a}", "[b]", "?"]).to_string(),
+        }
+    }
+
     fn weird(r: &mut Rng, max: usize, allow_eq: bool) -> String {
         loop {
             let s = random_string(r, CORE, max);
@@ -643,7 +658,7 @@ mod listing {
                     }
                 }
                 4 => {
-                    let name = ident(r);
+                    let name = array_name(r);
                     if readonly.contains(&name) || KEYWORDS.contains(&name.as_str()) {
                         continue;
                     }
@@ -654,7 +669,8 @@ mod listing {
                         readonly.push(name.clone());
                     }
                     arrays.push(name.clone());
-                    ops.push(format!("a:{}:{}:{}", h(&name), if vals.is_empty() { ".".into() } else { vals.join(",") }, attrs));
+                    let kind = if yash_quote::quoted(&name).needs_quoting() { "aq" } else { "a" };
+                    ops.push(format!("{kind}:{}:{}:{}", h(&name), if vals.is_empty() { ".".into() } else { vals.join(",") }, attrs));
                 }
                 5..=7 => {
                     let mut name = match r.below(8) {
@@ -1217,15 +1233,18 @@ mod script {
                 (format!("{n}={}", q(&v)), Some(format!("s{}={}", enc_str(&n), enc_str(&v))))
             }
             4 => {
-                let n = listing::gen_ident(r);
+                let n = listing::array_name(r);
                 let k = r.below(4);
                 let mut vs: Vec<String> = (0..k).map(|_| listing::gen_weird(r, 4, true)).collect();
                 if r.chance(1, 4) {
                     vs.push(r.pick(&["if", "}", "!", "done", "in"]).to_string());
                 }
-                let text = format!("{n}=({})", vs.iter().map(|v| q(v)).collect::<Vec<_>>().join(" "));
+                // the name is printed through the quoter, as `print_one` does
+                let text = format!("{}=({})", q(&n), vs.iter().map(|v| q(v)).collect::<Vec<_>>().join(" "));
                 let e = if vs.is_empty() { ".".to_string() } else { vs.iter().map(|v| enc_str(v)).collect::<Vec<_>>().join("+") };
-                (text, Some(format!("a{}={}", enc_str(&n), e)))
+                // a quoted name is not an assignment (known finding): no demand, model and parser must still agree
+                let demand = (!yash_quote::quoted(&n).needs_quoting()).then(|| format!("a{}={}", enc_str(&n), e));
+                (text, demand)
             }
             5 => {
                 let a = listing::gen_weird(r, 8, true);
